@@ -194,6 +194,25 @@ def gen_cases(rng, n, edge_every=4):
     return cases
 
 
+def py_oracle(meta):
+    """direct Python statement of the property on one executed call (fallback when proofs / Coq evaluation broke)"""
+    op, pre, post, out = meta['case']['op'], meta['pre'], meta['post'], meta['out']
+    k = op['k']
+    if k not in ('count', 'plain', 'fmt'):      # search on trees with links / notes / annotations is outside the compared domain
+        return None
+    if meta['err']:
+        return "raised " + meta['err']
+    if k in ('count', 'plain', 'fmt'):
+        pat = re.compile(op['rx'])
+        if k == 'count':
+            if tl.flat(pre) != tl.flat(post): return "counting changed the tree"
+            return None if out == sum(len(pat.findall(t)) for t in tl.texts(pre)) else "count is not the per-node sum"
+        want = [pat.subn(op['new'], t) for t in tl.texts(pre)]
+        if out != sum(n for _, n in want): return "returned count is not the per-node sum"
+        if k == 'plain' and tl.texts(post) != [s for s, _ in want]: return "text nodes are not re.subn of the former ones"
+    return None
+
+
 def classify(code, meta):
     if code == 5:
         return "search/own-tail-included"
@@ -244,6 +263,13 @@ def run(tier, seed, replay=None):
             violations.append((rp, False))
     known_seen = ["%s re-observed on %d call(s)" % kv for kv in sorted(seen_keys.items())]
     hard = bool(violations)
+    if ((proofs is not None and not proofs["ok"]) or errors or driver_errors) and not hard:
+        for i, m in enumerate(metas):
+            why = py_oracle(m)
+            if why:
+                rp = common.write_replay(PROP, seed, "py%d" % i, dict(layer="direct oracle: " + why, code=-1, case=m['case'], known_finding_key=None))
+                violations.append((rp, False)); hard = True
+                break
     if driver_errors and not hard:
         errors = errors + ["driver: %s" % driver_errors[:3]]
     violations += common.proof_violation(PROP, seed, proofs, errors, hard)
